@@ -728,6 +728,24 @@ class TypeEnv:
                     out.add(cands[0].fq)
         return out
 
+    def _with_comprehension_vars(self, comp: ast.AST, thunk):
+        """Evaluates thunk() with the comprehension's loop variables bound to the element types of their iterables."""
+        saved_l: dict[str, Optional[set[str]]] = {}
+        try:
+            for g in comp.generators:  # type: ignore[attr-defined]
+                if isinstance(g.target, ast.Name):
+                    t = self.elem_type_of(g.iter)
+                    if t:
+                        saved_l[g.target.id] = self.locals.get(g.target.id)
+                        self.locals[g.target.id] = set(t)
+            return thunk()
+        finally:
+            for k, v in saved_l.items():
+                if v is None:
+                    self.locals.pop(k, None)
+                else:
+                    self.locals[k] = v
+
     def elem_type_of(self, e: ast.AST) -> set[str]:
         if isinstance(e, ast.Name):
             return set(self.elem.get(e.id, set()))
@@ -737,6 +755,19 @@ class TypeEnv:
             if isinstance(e.func, ast.Name) and e.func.id in ("list", "set", "sorted", "reversed", "tuple", "iter", "frozenset") and e.args:
                 return self.elem_type_of(e.args[0])
             if isinstance(e.func, ast.Name) and e.func.id == "enumerate":
+                return set()
+            if isinstance(e.func, ast.Name) and e.func.id == "filter" and len(e.args) == 2:
+                return self.elem_type_of(e.args[1])
+            fname = norm(e.func)
+            if fname in ("itertools.chain", "chain"):
+                out0: set[str] = set()
+                for a in e.args:
+                    out0 |= self.elem_type_of(a.value if isinstance(a, ast.Starred) else a)
+                return out0
+            if fname in ("itertools.chain.from_iterable", "chain.from_iterable") and e.args:
+                inner = e.args[0]
+                if isinstance(inner, (ast.ListComp, ast.SetComp, ast.GeneratorExp)):
+                    return self._with_comprehension_vars(inner, lambda: self.elem_type_of(inner.elt))
                 return set()
             if isinstance(e.func, ast.Attribute):
                 out: set[str] = set()
@@ -757,7 +788,7 @@ class TypeEnv:
                 out2 |= self.type_of(x.value if isinstance(x, ast.Starred) else x)
             return out2
         if isinstance(e, ast.ListComp) or isinstance(e, ast.SetComp) or isinstance(e, ast.GeneratorExp):
-            return self.type_of(e.elt)
+            return self._with_comprehension_vars(e, lambda: self.type_of(e.elt))
         if isinstance(e, ast.Subscript) and isinstance(e.slice, ast.Slice):
             return self.elem_type_of(e.value)
         if isinstance(e, ast.BinOp) and isinstance(e.op, ast.Add):
